@@ -13,7 +13,7 @@ cmd="${cmd//\/var\/tmp/$FAKE_REMOTE_ROOT}"
 # (with FAKE_UNAME_MAP="host=arch ..." each host claims its own architecture)
 if [ -n "$FAKE_UNAME_MAP" ]; then unset FAKE_UNAME; for kv in $FAKE_UNAME_MAP; do if [ "${kv%%=*}" = "$host" ]; then export FAKE_UNAME="${kv#*=}"; fi; done; fi
 printf 'ssh\t%s\t%s\n' "$host" "$(printf '%s' "$1" | tr '\n' ' ')" >> "$FAKE_LOG"
-if [ -n "$FAKE_RELAY_ORDER$FAKE_CUT$FAKE_KEY_LOG$FAKE_PAUSE$FAKE_BAD_PORT" ] && [[ "$cmd" == *--doer* ]]; then exec python3 "$(dirname "$0")/relay.py" "$cmd"; fi
+if [ -n "$FAKE_RELAY_ORDER$FAKE_CUT$FAKE_KEY_LOG$FAKE_PAUSE$FAKE_BAD_PORT$FAKE_RECORD" ] && [[ "$cmd" == *--doer* ]]; then exec python3 "$(dirname "$0")/relay.py" "$cmd"; fi
 exec /bin/bash -c "$cmd"
 '''
 RELAY = r'''#!/usr/bin/env python3
@@ -25,9 +25,11 @@ order = (os.environ.get('FAKE_RELAY_ORDER') or 'So,Se,Co,Ce').split(',')
 # $FAKE_CUT = "<d2b|b2d>:<offset>:<fin|rst>": the TCP link boss<->doer runs through a proxy that, after exactly <offset> bytes in that
 # direction, ends the connection: fin = clean end-of-file towards the receiver (the other direction stays open), rst = abrupt reset
 CUT = os.environ.get('FAKE_CUT')
+# $FAKE_RECORD = "<prefix>": the TCP link runs through a proxy that passes everything on and appends what it saw to <prefix>.<pid>.b2d / .d2b
+REC = os.environ.get('FAKE_RECORD')
 proxy_port = None
 def start_proxy(real_port):
-    direction, offset, mode = CUT.split(':'); offset = int(offset)
+    direction, offset, mode = (CUT or 'none:0:fin').split(':'); offset = int(offset)
     ls = socket.socket(); ls.bind(('127.0.0.1', 0)); ls.listen(1)
     def serve():
         a, _ = ls.accept()                          # the boss
@@ -41,12 +43,14 @@ def start_proxy(real_port):
                 for s_ in (a, b):
                     try: s_.setsockopt(socket.SOL_SOCKET, socket.SO_LINGER, struct.pack('ii', 1, 0)); s_.close()
                     except OSError: pass
-        def pump(src_sock, dst_sock, counted):
+        def pump(src_sock, dst_sock, counted, tag='x'):
             n = 0
             if counted and offset == 0: cut(dst_sock); return
             while True:
                 try: data = src_sock.recv(65536)
                 except OSError: break
+                if REC and data:
+                    with open('%s.%d.%s' % (REC, os.getpid(), tag), 'ab') as rf: rf.write(data)
                 if not data:
                     try: dst_sock.shutdown(socket.SHUT_WR)
                     except OSError: pass
@@ -64,8 +68,8 @@ def start_proxy(real_port):
                 try: dst_sock.sendall(data)
                 except OSError: break
                 n += len(data)
-        threading.Thread(target=pump, args=(a, b, direction == 'b2d'), daemon=True).start()
-        threading.Thread(target=pump, args=(b, a, direction == 'd2b'), daemon=True).start()
+        threading.Thread(target=pump, args=(a, b, direction == 'b2d', 'b2d'), daemon=True).start()
+        threading.Thread(target=pump, args=(b, a, direction == 'd2b', 'd2b'), daemon=True).start()
     threading.Thread(target=serve, daemon=True).start()
     return ls.getsockname()[1]
 KEYLOG = os.environ.get('FAKE_KEY_LOG')
@@ -141,7 +145,7 @@ for item in order:
         # $FAKE_BAD_PORT: the port the doer announces cannot be reached from the boss (a firewall, a wrong --remote-port, an ssh alias that
         # leads elsewhere): the announced number is replaced by one nobody listens on; the doer itself goes on waiting
         line = re.sub(rb'(on port )\d+', rb'\g<1>1', line)
-    if CUT and item[0] == 'C':
+    if (CUT or REC) and item[0] == 'C':
         m = re.match(rb'(Waiting for incoming network connection on port )(\d+)', line)
         if m:
             if proxy_port is None: proxy_port = start_proxy(int(m.group(2)))
@@ -170,7 +174,7 @@ exec cp -r "$src" "$FAKE_REMOTE_ROOT/"
 
 FAKE_UNAME = r'''#!/bin/bash
 # fake uname for the "remote" side: with $FAKE_UNAME the remote claims to be another architecture
-if [ -n "$FAKE_UNAME" ]; then echo "Linux fakehost 5.10.0 #1 SMP $FAKE_UNAME GNU/Linux"; else exec /bin/uname "$@"; fi
+if [ -n "$FAKE_UNAME_LINE" ]; then echo "$FAKE_UNAME_LINE"; elif [ -n "$FAKE_UNAME" ]; then echo "Linux fakehost 5.10.0 #1 SMP $FAKE_UNAME GNU/Linux"; else exec /bin/uname "$@"; fi
 '''
 
 
